@@ -118,6 +118,12 @@ pub fn check_case(c: &Case, st: &mut Stats) -> PResult {
         match &r.result {
             Ok(()) => {
                 saw_ok = true;
+                // open-element bookkeeping: with selectors registered every never-closed
+                // non-void element occupies a stack item (far more than 16 bytes each)
+                if c.family.starts_with("deep_nesting") {
+                    let open = c.input.iter().filter(|b| **b == b'<').count();
+                    ensure!(open * 16 <= m, "C10: {open} elements are open under a selector set but the run succeeded with a memory limit of only {m} bytes (bookkeeping not limited)");
+                }
                 if first_ok.is_none() {
                     first_ok = Some(m);
                 }
